@@ -278,6 +278,8 @@ impl LanguageServer for Server {
 impl Server {
     fn set_file_content(&mut self, uri: &Url, text: &str) {
         let path = UrlExt::to_file_path(uri);
+        #[cfg(feature = "verif")]
+        crate::verif_hooks::point("main:enter");
         // The running snapshot tasks take the vfs lock to finish, and the database writes below
         // wait until those tasks have finished: wait for them before locking the vfs, or the
         // main loop and a task end up waiting for each other forever.
